@@ -38,7 +38,10 @@ Init == /\ src \in DOMAIN SrcHeaps
         /\ pend = None
         /\ done = FALSE
 
-NewCount(m) == IF m.v \in {"mutate", "summarize"} THEN Len(m.kv) ELSE 0
+NewCount(h, m) == CASE m.v \in {"mutate", "summarize"} -> Len(m.kv)
+                    [] m.v = "alias" -> AliasNew(h[m.i], m.keep)
+                    [] m.v = "collect" -> CollectNew(h[m.i], m.keep)
+                    [] OTHER -> 0
 
 (* the meaning of one move *)
 ApplyMove(h, m, n) ==
@@ -52,6 +55,11 @@ ApplyMove(h, m, n) ==
       [] m.v = "group_by"   -> GroupBy(h[m.i], m.cs, m.add)
       [] m.v = "ungroup"    -> Ungroup(h[m.i])
       [] m.v = "summarize"  -> Summarize(h[m.i], m.kv, n)
+      [] m.v = "alias"      -> Alias(h[m.i], m.name, m.keep, n)
+      [] m.v = "collect"    -> Collect(h[m.i], m.keep, n)
+      [] m.v = "join"       -> Join(h[m.i], h[m.j], m.on, m.how, m.suffix)
+      [] m.v = "cross_join" -> Join(h[m.i], h[m.j], <<>>, "inner", m.suffix)
+      [] m.v = "union"      -> Union(h[m.i], h[m.j], m.distinct)
 
 Choose == /\ ~done /\ pend = None /\ Len(hist) < MaxDepth
           /\ LET ms == Moves(heap, known) IN
@@ -64,7 +72,7 @@ Apply == /\ pend # None
             THEN IF HasUndef(r.t)
                  THEN UNCHANGED <<heap, nid, known, hist>>          \* outside the backend-independent fragment: dropped
                  ELSE /\ heap' = Append(heap, r.t)
-                      /\ nid' = nid + NewCount(pend)
+                      /\ nid' = nid + NewCount(heap, pend)
                       /\ known' = known \cup VisSet(r.t)
                       /\ hist' = Append(hist, [m |-> pend, out |-> Len(heap) + 1, o |-> Obs(r.t)])
             ELSE IF r.cls \in {"UNDEF", "AMBIG"}
